@@ -206,6 +206,31 @@ impl Family for A1 {
                         w.push(Hx(cand));
                     }
                 }
+                // a password that ends with a line terminator or a blank, and the same password without
+                // it, are two passwords (no draw: derived from the password)
+                let trimmed: Vec<u8> = {
+                    let mut q = password.0.clone();
+                    while matches!(q.last(), Some(b'\n') | Some(b'\r') | Some(b' ')) {
+                        q.pop();
+                    }
+                    q
+                };
+                let near = if trimmed != password.0 {
+                    Some(trimmed)
+                } else if crate::rng::fnv64(&password.0) % 4 == 1 {
+                    let mut q = password.0.clone();
+                    q.extend_from_slice(if crate::rng::fnv64(&password.0) % 8 == 1 { b"\n" } else { b"\r\n" });
+                    Some(q)
+                } else {
+                    None
+                };
+                if let Some(q) = near {
+                    if w.is_empty() {
+                        w.push(Hx(q));
+                    } else {
+                        w[0] = Hx(q);
+                    }
+                }
                 w
             }
             Mode::Hook { key, .. } => {
@@ -402,6 +427,9 @@ impl Family for A1 {
             if s.entropy_tag % 4 == 0 && pt.len() <= 200_000 {
                 use kestrel_crypto::{AsymFileFormat, PayloadKey, PrivateKey, PublicKey};
                 let which = (s.entropy_tag >> 2) % 3;
+                // an ephemeral key and a payload key of their own: the main round trip has used e and p, and
+                // the same ephemeral key with another message would be a (harness-made) nonce reuse
+                let (e, p) = (&Hx(crate::refmodel::prims::sha256(&e.0).to_vec()), &Hx(crate::refmodel::prims::sha256(&p.0).to_vec()));
                 let mut spk_b = pubkey_of(&s_priv.a32());
                 let mut rpk_b = pubkey_of(&r_priv.a32());
                 if which != 0 {
